@@ -17,8 +17,8 @@ func init() {
 	core.Register(&core.Check{
 		ID: "C29", Level: "other", Title: "PoSA light clients accept only valid validator seals",
 		Technique: "sibling template: guard dominance, flag definitions, start-relative dominance inside the validator loop",
-		Explain: "Sibling template over the seven proof-of-staked-authority routers (bsc, heco, hsc, pixiechain, bytom share one template; msc and polygon-bor a reduced one). In SyncBlockHeader the addHeader call is dominated by: header not yet stored (isHeaderExist(header.Hash()) err==nil, false), parent stored (isHeaderExist(header.ParentHash) true), the seal/field verification (verifySignature resp. verifyHeader) err==nil; for the five template routers additionally getPrevHeightAndValidators err==nil, the recent-signer alternative {lastSeenHeight <= 0, number > lastSeenHeight+limit}, and the `valid` flag, whose only true-definition lies inside the loop over the in-effect validator list under the equality of the list element with the signer recovered by verifySignature; from that equality edge every path back to the loop passes the in-turn (Cmp(diffInTurn)==0 under indexInTurn==idx) or out-of-turn (Cmp(diffNoTurn)==0) difficulty comparison. In each verifySeal the nil-error return is dominated by ecrecover err==nil. In each addHeader: parent lookup err==nil, the stored total difficulty is Add(header.Difficulty, parent.DifficultySum), and every canonical-index mutation (putCanonicalHash / putCanonicalHeight / deleteCanonicalHash) is dominated by externTd.Cmp(localTd) > 0 (strictly greater) with localTd the canonical head's sum. NOT decided: correctness of the epoch lookup getPrevHeightAndValidators (walk over stored epochs) and of the fixed-format field checks' constants.",
-		Run: runC29,
+		Explain:   "Sibling template over the seven proof-of-staked-authority routers (bsc, heco, hsc, pixiechain, bytom share one template; msc and polygon-bor a reduced one). In SyncBlockHeader the addHeader call is dominated by: header not yet stored (isHeaderExist(header.Hash()) err==nil, false), parent stored (isHeaderExist(header.ParentHash) true), the seal/field verification (verifySignature resp. verifyHeader) err==nil; for the five template routers additionally getPrevHeightAndValidators err==nil, the recent-signer alternative {lastSeenHeight <= 0, number > lastSeenHeight+limit}, and the `valid` flag, whose only true-definition lies inside the loop over the in-effect validator list under the equality of the list element with the signer recovered by verifySignature; from that equality edge every path back to the loop passes the in-turn (Cmp(diffInTurn)==0 under indexInTurn==idx) or out-of-turn (Cmp(diffNoTurn)==0) difficulty comparison. In each verifySeal the nil-error return is dominated by ecrecover err==nil. In each addHeader: parent lookup err==nil, the stored total difficulty is Add(header.Difficulty, parent.DifficultySum), and every canonical-index mutation (putCanonicalHash / putCanonicalHeight / deleteCanonicalHash) is dominated by externTd.Cmp(localTd) > 0 (strictly greater) with localTd the canonical head's sum. NOT decided: correctness of the epoch lookup getPrevHeightAndValidators (walk over stored epochs) and of the fixed-format field checks' constants.",
+		Run:       runC29,
 	})
 }
 
